@@ -69,16 +69,17 @@ Fixpoint bad_items (eol_len : nat) (lines : list string) (file : string) (items 
    machine.  The three booleans say what the code does (recognised in source_ref.py /
    compiler_frontend.py by the extractor): whether a compilation starts by resetting the reference
    index, whether get_sources() keeps only the files the indexed references point into, whether
-   the text cache is validated by path.  Tied to the real functions by tools/props/c08.py. *)
+   the text cache is validated by path and modification stamp.  Tied to the real functions by tools/props/c08.py. *)
 Record sref0 := { s_file : string; s_line : Z; s_off : Z; s_len : Z }.
 Definition sref0_eqb (a b : sref0) : bool :=
   String.eqb (s_file a) (s_file b) && Z.eqb (s_line a) (s_line b) && Z.eqb (s_off a) (s_off b) && Z.eqb (s_len a) (s_len b).
 
-Record centry := { c_base : string; c_path : string; c_text : string }.
+Record centry := { c_base : string; c_path : string; c_ver : Z; c_text : string }.     (* c_ver: the file's modification stamp *)
 Record stabs := { t_refs : list sref0; t_cache : list centry }.
 
 Inductive sop :=
-| OTouch (path base disk_text : string)      (* try_get_line_info on a frame of the file [path] whose text on disk is [disk_text] *)
+| OTouch (path base : string) (ver : Z) (disk_text : string)
+      (* try_get_line_info on a frame of the file [path], whose modification stamp is [ver] and text on disk [disk_text] *)
 | OIndex (r : sref0)                         (* SourceRef.to_index() *)
 | OCompileStart.                             (* the first statements of nada_dsl_to_nada_mir *)
 
@@ -93,13 +94,13 @@ Fixpoint cache_put (e : centry) (c : list centry) : list centry :=
   | x :: r => if String.eqb (c_base x) (c_base e) then e :: r else x :: cache_put e r
   end.
 
-Definition touch (path base disk : string) (s : stabs) : stabs :=
+Definition touch (path base : string) (ver : Z) (disk : string) (s : stabs) : stabs :=
   match cache_find base (t_cache s) with
   | Some e =>
-      if by_path && negb (String.eqb (c_path e) path)
-      then {| t_refs := t_refs s; t_cache := cache_put {| c_base := base; c_path := path; c_text := disk |} (t_cache s) |}
+      if by_path && negb (String.eqb (c_path e) path && Z.eqb (c_ver e) ver)
+      then {| t_refs := t_refs s; t_cache := cache_put {| c_base := base; c_path := path; c_ver := ver; c_text := disk |} (t_cache s) |}
       else s
-  | None => {| t_refs := t_refs s; t_cache := cache_put {| c_base := base; c_path := path; c_text := disk |} (t_cache s) |}
+  | None => {| t_refs := t_refs s; t_cache := cache_put {| c_base := base; c_path := path; c_ver := ver; c_text := disk |} (t_cache s) |}
   end.
 
 Definition index (r : sref0) (s : stabs) : stabs :=
@@ -107,7 +108,7 @@ Definition index (r : sref0) (s : stabs) : stabs :=
 
 Definition tstep (s : stabs) (o : sop) : stabs :=
   match o with
-  | OTouch p b d => touch p b d s
+  | OTouch p b v d => touch p b v d s
   | OIndex r => index r s
   | OCompileStart => if resets then {| t_refs := []; t_cache := t_cache s |} else s
   end.
